@@ -194,4 +194,89 @@ $a = [3, 1, 2]; usort($a, "cmp"); echo json_encode($a), "|", array_reduce([1, 2,
 	{"end-ob-open-then-fatal", `ob_start(); echo "buffered"; abstract class Ob {} new Ob();`},
 	{"end-ob-open-then-exit", `ob_start(); echo "buffered-exit"; exit(5);`},
 	{"end-error-handler-left", `set_error_handler(function($no, $str) { echo "EH:", $str, "\n"; return true; }); echo "installed\n";`},
+	// ---- round 4 -------------------------------------------------------------------------------------
+	// (a) residue carried by a shared VALUE OBJECT rather than by a package-level variable: programs
+	// that mutate values in place through every library route that writes into a value it was handed
+	// (typed json_decode hydration, sort/splice/walk/by-reference arguments, default parameter values,
+	// property defaults, class constants, statics, unserialize / reflection / clone / casts), and a probe
+	// that prints every literal and constant kind through every consumer (truthiness, comparison,
+	// builtins that answer true/false, encoders, default parameters, class constants, statics, property
+	// defaults, loops, casts, decoders). "B after A == B alone" over all pairs shows the corruption
+	// whatever carries it.
+	// (b) library functions whose result depends on the ORDER in which a table argument is walked:
+	// strtr / str_replace over every table of 2 and 3 pairs with keys from {a,b,ab,ba,c} and
+	// replacements from {a,b,c,ab,""} (overlapping and prefix keys, replacements that contain other
+	// keys), and one program with every array function taking a string-keyed map.
+	{"probe-literals", `function dflt($a = false, $b = true, $c = null, $d = 0, $e = "", $f = [], $g = 1.5, $h = "s") { return json_encode([$a, $b, $c, $d, $e, $f, $g, $h]); }
+class Lit { const F = false; const T = true; const N = null; const Z = 0; const E = ""; const A = []; const S = "k"; const FL = 0.5;
+ static $sf = false; static $st = true; static $sn = null; static $sz = 0; static $sa = []; public $pf = false; public $pt = true; public $pn = null; public $pz = 0; public $pe = ""; public $pa = []; public bool $tb = false; public int $ti = 0; public string $ts = ""; public ?array $ta = null; }
+function t($v) { return $v ? "T" : "F"; }
+echo "lit:", t(false), t(true), t(null), t(0), t(1), t(-1), t(""), t("0"), t("a"), t([]), t([0]), t(0.0), t(0.5), "\n";
+echo "cmp:", t(1 == 2), t(1 == 1), t(1 === 1), t("a" === "b"), t(1 < 2), t(2 < 1), t(!true), t(!false), t(true && false), t(true || false), t(null === null), t(isset($nope)), t(empty($nope)), "\n";
+echo "fn:", t(in_array("x", ["a", "b"])), t(in_array("a", ["a", "b"])), t(is_string(5)), t(is_string("s")), t(is_int(5)), t(is_bool(false)), t(is_null(null)), t(is_array([])), t(array_key_exists("k", ["k" => 1])), t(array_key_exists("z", ["k" => 1])), t(function_exists("nope_c20")), t(class_exists("Lit")), t(str_contains("abc", "z")), t(array_search("z", ["a"])), "\n";
+echo "json:", json_encode([false, true, null, 0, 1, -1, "", "0", [], 0.5, 1.0]), json_encode(["f" => false, "t" => true, "n" => null]), "\n";
+echo "dflt:", dflt(), dflt(), "\n";
+echo "const:", json_encode([Lit::F, Lit::T, Lit::N, Lit::Z, Lit::E, Lit::A, Lit::S, Lit::FL, PHP_EOL, PHP_INT_MAX, PHP_INT_SIZE, E_USER_WARNING, SORT_STRING, M_PI > 3]), "\n";
+echo "static:", json_encode([Lit::$sf, Lit::$st, Lit::$sn, Lit::$sz, Lit::$sa]), "\n";
+$o = new Lit(); echo "props:", json_encode($o), "\n"; $p = new Lit(); echo "props2:", json_encode($p), "\n";
+$i = 0; $n = 0; while ($i < 3) { $i++; $n = $n + $i; } for ($j = 0; $j < 2; $j++) { $n++; } echo "loop:", $i, ",", $n, "\n";
+var_dump(false, true, null, 0, "", 1.5); var_export([false, true, null]); echo "\n";
+echo "cast:", t((bool)0), t((bool)1), t((bool)""), t((bool)"x"), (int)"12", "|", (string)false, "|", (string)true, "|", (int)false, (int)true, "|", 0 + false, 1 + true, "\n";
+echo "dec:", json_encode(json_decode("[false,true,null,0,\"\",[]]")), json_encode(json_decode('{"a":false,"b":true}', true)), serialize([false, true, null, 0]), json_encode(unserialize("a:2:{i:0;b:0;i:1;b:1;}")), "\n";
+echo "tern:", false ? "x" : "y", true ? "x" : "y", null ?? "d", 0 ?: "e", match(false) { true => "mt", false => "mf" }, "\n";
+switch (false) { case true: echo "sw:T"; break; case false: echo "sw:F"; break; } echo "\n";`},
+	{"mutate-typed-hydrate", `class Flags { public bool $on = false; public bool $off = true; public int $n = 0; public string $s = ""; public float $f = 0.0; public array $list = []; public ?string $opt = null; public $untyped = false; }
+$a = json_decode('{"on":true,"off":false,"n":7,"s":"txt","f":2.5,"list":[1,2],"opt":"o","untyped":true}', Flags::class);
+echo json_encode($a), "\n";
+$b = json_decode('{"on":false,"off":true,"n":0,"s":"","f":0.0,"list":[],"opt":null,"untyped":null}', Flags::class);
+echo json_encode($b), "\n";
+$c = new Flags(); echo json_encode($c), "\n";`},
+	{"mutate-array-args", `$a = [3, 1, 2]; sort($a); rsort($a); usort($a, function($p, $q) { return $p <=> $q; }); echo json_encode($a);
+$k = ["b" => 1, "a" => 2]; ksort($k); krsort($k); echo json_encode($k);
+$s = [1, 2, 3]; array_push($s, 4, false, true, null); echo array_pop($s), "|", json_encode(array_pop($s)), json_encode(array_shift($s)); array_unshift($s, 0, ""); $r = array_splice($s, 1, 2, [false, true]); echo json_encode($s), json_encode($r), "\n";
+$w = [false, true, null, 0, "", []]; array_walk($w, function(&$v, $k) { $v = !$v; }); echo json_encode($w);
+foreach ($w as $i => &$ref) { $ref = $i; } unset($ref); echo json_encode($w);
+$m = []; $ok = preg_match("/(a)(b)?/", "ac", $m); echo $ok, json_encode($m); $cnt = 0; $o = str_replace("a", "b", "aaa", $cnt); echo $o, $cnt, "\n";
+function byref(&$x) { $x = !$x; return $x; } $f = false; $t = true; $n = null; $z = 0; byref($f); byref($t); byref($n); byref($z); echo json_encode([$f, $t, $n, $z]);
+function inc(&$x) { $x++; $x .= ""; } $i = 0; inc($i); $e = ""; $e .= "x"; $fl = 0.0; $fl += 1.5; $nn = null; $nn[] = 1; $q = false; $q = $q || true; $u = true; $u = $u && false; echo json_encode([$i, $e, $fl, $nn, $q, $u]), "\n";
+$arr = [false, true]; $arr[0] = !$arr[0]; $cp = $arr; $cp[1] = "changed"; echo json_encode($arr), json_encode($cp);
+extract(["xf" => false, "xt" => true]); $xf = !$xf; $xt = !$xt; echo json_encode([$xf, $xt]), "\n";`},
+	{"mutate-defaults-statics", `function acc($item, $list = [], $flag = false, $n = 0, $s = "") { $list[] = $item; $flag = !$flag; $n++; $s .= "x"; return json_encode([$list, $flag, $n, $s]); }
+echo acc(1), acc(2), "\n";
+class Cfg { const DEF = ["a" => false, "b" => [1]]; const OFF = false; const ON = true; const ZERO = 0; public $opts = ["x" => false]; public $on = false; public $cnt = 0; public $name = ""; static $reg = []; static $flag = false; static $n = 0;
+ function tweak() { $this->opts["x"] = true; $this->opts["y"] = 1; $this->on = !$this->on; $this->cnt++; $this->name .= "n"; self::$reg[] = "r"; self::$flag = !self::$flag; self::$n++; return $this; } }
+$a = new Cfg(); $a->tweak()->tweak(); echo json_encode($a), json_encode(Cfg::$reg), json_encode(Cfg::$flag), Cfg::$n, "\n";
+$d = Cfg::DEF; $d["a"] = true; $d["b"][] = 2; $o = Cfg::OFF; $o = !$o; $z = Cfg::ZERO; $z++; echo json_encode($d), json_encode(Cfg::DEF), json_encode([$o, Cfg::OFF, $z, Cfg::ZERO]), "\n";
+$b = new Cfg(); echo json_encode($b), "\n";
+function counter() { static $c = 0; static $seen = []; static $f = false; $c++; $seen[] = $c; $f = !$f; return json_encode([$c, $seen, $f]); } echo counter(), counter(), "\n";
+$t = true; $f = false; $nul = null; $t2 = $t; $t2 = !$t2; $pe = PHP_EOL; $pe .= "x"; $mx = PHP_INT_MAX; $mx--; echo json_encode([$t, $f, $nul, $t2, PHP_EOL, PHP_INT_MAX === $mx]), "\n";`},
+	{"mutate-reflection-unserialize", `class Box2 { public $flag = false; public bool $tb = false; public $items = []; private $hidden = false; function hidden() { return $this->hidden; } }
+$u = unserialize('a:3:{s:4:"flag";b:1;s:2:"tb";b:0;s:5:"items";a:2:{i:0;b:1;i:1;b:0;}}'); $u["flag"] = !$u["flag"]; $u["items"][1] = !$u["items"][1]; echo json_encode($u), "\n";
+$r = new ReflectionClass("Box2"); $o = $r->newInstance(); $o->flag = !$o->flag; $o->tb = !$o->tb; $o->items[] = false; echo json_encode($o), "\n";
+try { $rp = new ReflectionProperty("Box2", "hidden"); $rp->setAccessible(true); $rp->setValue($o, true); echo json_encode($o->hidden()), "\n"; } catch (Throwable $e) { echo "E:", get_class($e), "\n"; }
+$c = clone $o; $c->flag = !$c->flag; $c->items[0] = !$c->items[0]; echo json_encode($c), json_encode($o), "\n";
+$so = (object)["f" => false, "t" => true]; $so->f = !$so->f; $arr = (array)$so; $arr["t"] = null; echo json_encode($so), json_encode($arr), "\n";
+$j = json_decode('{"f":false,"t":true,"n":null,"l":[false]}'); $j->f = !$j->f; $j->l[] = true; $ja = json_decode('{"f":false,"l":[false,true]}', true); $ja["f"] = !$ja["f"]; $ja["l"][0] = !$ja["l"][0]; echo json_encode($j), json_encode($ja), "\n";
+$n = new Box2(); echo json_encode($n), "\n";`},
+	{"table-strtr", `$K = ["a", "b", "ab", "ba", "c"]; $V = ["a", "b", "c", "ab", ""]; $s = "aabbabcba";
+for ($i = 0; $i < 5; $i++) { for ($j = $i + 1; $j < 5; $j++) { foreach ($V as $v1) { foreach ($V as $v2) { echo strtr($s, [$K[$i] => $v1, $K[$j] => $v2]), ","; } } echo "\n"; } }
+for ($i = 0; $i < 5; $i++) { for ($j = $i + 1; $j < 5; $j++) { for ($l = $j + 1; $l < 5; $l++) { foreach ($V as $v1) { foreach ($V as $v2) { foreach ($V as $v3) { echo strtr($s, [$K[$i] => $v1, $K[$j] => $v2, $K[$l] => $v3]), ","; } } } echo "\n"; } } }
+echo strtr("abcabc", "ab", "ba"), strtr("Hi all", ["Hi" => "Hello", "Hello" => "Hi", "all" => "everyone", "every" => "no"]), "\n";`},
+	{"table-str-replace", `$K = ["a", "b", "ab", "ba", "c"]; $V = ["a", "b", "c", "ab", ""]; $s = "aabbabcba";
+for ($i = 0; $i < 5; $i++) { for ($j = 0; $j < 5; $j++) { if ($i == $j) { continue; } foreach ($V as $v1) { foreach ($V as $v2) { echo str_replace([$K[$i], $K[$j]], [$v1, $v2], $s), ","; } } echo "\n"; } }
+for ($i = 0; $i < 5; $i++) { for ($j = 0; $j < 5; $j++) { for ($l = 0; $l < 5; $l++) { if ($i == $j || $j == $l || $i == $l) { continue; } foreach ($V as $v1) { foreach ($V as $v2) { echo str_replace([$K[$i], $K[$j], $K[$l]], [$v1, $v2, "x"], $s), ",", str_replace([$K[$i], $K[$j], $K[$l]], $v1, $s), ","; } } echo "\n"; } } }
+echo str_replace(["k1" => "a", "k0" => "b"], ["k1" => "b", "k0" => "c"], "ab"), str_ireplace(["A", "b"], ["b", "c"], "aAbB"), json_encode(str_replace("a", "b", ["y" => "aa", "x" => "ab"])), "\n";
+echo preg_replace(["/a/", "/b/"], ["b", "c"], "ab"), preg_replace(["/b/", "/a/"], ["c", "b"], "ab"), json_encode(preg_replace("/a/", "z", ["q" => "a1", "p" => "a2"])), "\n";`},
+	{"table-array-functions", `$m = ["b" => "x", "a" => "y", "ab" => "x", "c" => "z"]; $n = null; $n["q"] = 2; $n["p"] = 1; $n["r"] = 2;
+echo implode(",", $m), "|", implode(",", $n), "|", join("-", ["k2" => "v2", "k1" => "v1"]), "\n";
+echo json_encode(array_search("x", $m)), json_encode(array_search(2, $n)), json_encode(in_array("z", $m)), json_encode(array_keys($m, "x")), json_encode(array_keys($n, 2)), "\n";
+echo json_encode(array_unique($m)), json_encode(array_unique($n)), json_encode(array_flip($m)), json_encode(array_flip($n)), "\n";
+echo json_encode(array_intersect($m, ["x"])), json_encode(array_intersect_key($m, ["ab" => 1, "b" => 1])), json_encode(array_diff($m, ["y"])), json_encode(array_diff($n, [1])), "\n";
+echo json_encode(array_merge($m, $n)), json_encode(array_replace($m, $n)), json_encode($m + $n), json_encode(array_combine(array_keys($m), array_values($n + ["s" => 4]))), "\n";
+echo json_encode(array_values($m)), json_encode(array_values($n)), json_encode(array_reverse($m)), json_encode(array_slice($m, 1, 2)), json_encode(array_map(function($v) { return $v . "!"; }, $n)), "\n";
+echo json_encode(array_filter($n, function($v) { return $v > 1; })), array_reduce($m, function($c, $v) { return $c . $v; }, ""), json_encode(min($n)), json_encode(max($n)), json_encode(min($m)), json_encode(max($m)), "\n";
+$w = ""; array_walk($m, function($v, $k) use (&$w) { $w .= $k . $v; }); echo $w, "|", json_encode(array_key_first($n)), count($m), count($n), "\n";
+echo vsprintf("%s-%s-%s", $n), "|", sprintf("%2\$s %1\$s", "w", "h"), "|", http_build_query($m), "|", http_build_query($n), "\n";
+echo json_encode(array_fill_keys(array_keys($n), 0)), json_encode(array_pad($n, 5, 0)), json_encode(array_merge_recursive(["t" => $m], ["t" => $n])), json_encode(array_replace_recursive(["t" => $m], ["t" => $n])), "\n";
+extract($n); echo $q, $p, $r, "|", json_encode(iterator_to_array(new ArrayIterator($m))), serialize($n), "\n"; var_export($n); echo "\n";`},
 }
